@@ -100,12 +100,11 @@ _public_ int m_mod_set_batch_size(m_mod_t *mod, size_t len) {
 
 _public_ int m_mod_set_batch_timeout(m_mod_t *mod, uint64_t timeout_ns) {
     M_MOD_ASSERT(mod);
-
-    // src_deregister and src_register already consume a token
+    M_MOD_CONSUME_TOKEN(mod);
 
     /* If it was already set, remove old timer */
     if (mod->batch.timer.ns != 0) {
-        m_mod_src_deregister_tmr(mod, &mod->batch.timer);
+        rm_mod_src(mod, M_SRC_TYPE_TMR, &mod->batch.timer, M_SRC_INTERNAL, &mod->batch);
     }
     mod->batch.timer.clock_id = CLOCK_MONOTONIC;
     mod->batch.timer.ns = timeout_ns;
@@ -115,7 +114,7 @@ _public_ int m_mod_set_batch_timeout(m_mod_t *mod, uint64_t timeout_ns) {
             // Set a maximum value for batching so that only timed batching will be effective
             mod->batch.len = SIZE_MAX;
         }
-        return m_mod_src_register_tmr(mod, &mod->batch.timer, M_SRC_INTERNAL | M_SRC_PRIO_HIGH, &mod->batch);
+        return add_mod_src(mod, M_SRC_TYPE_TMR, &mod->batch.timer, M_SRC_INTERNAL | M_SRC_PRIO_HIGH, &mod->batch);
     }
     if (mod->batch.len == SIZE_MAX) {
         // Timed batching was the only batching in effect: disable batching altogether
